@@ -919,6 +919,23 @@ pub fn random_spec(col: &Collections, family: &str, n: usize, rng: &mut Rng) -> 
             s.binary = pcsaft_bin(rng, n);
             s
         }
+        "pcsaft-solvating" => {
+            // one donor-only and one acceptor-only component: exactly one A and one B site in
+            // the mixture, on different components (closed-form association branch)
+            if n < 2 {
+                return None;
+            }
+            let mut pure = pick_n(rng, &assoc, 2);
+            pure[0]["model_record"]["na"] = json!(1.0);
+            pure[0]["model_record"]["nb"] = json!(0.0);
+            pure[1]["model_record"]["na"] = json!(0.0);
+            pure[1]["model_record"]["nb"] = json!(1.0);
+            pure.extend(pick_n(rng, &nonassoc, n - 2));
+            rng.shuffle(&mut pure);
+            let mut s = Spec::new(Kind::PcSaft, pure);
+            s.binary = pcsaft_bin(rng, n);
+            s
+        }
         "pcsaft-polar" => {
             let mut pure = Vec::new();
             if rng.bool(0.5) {
@@ -1060,6 +1077,7 @@ pub const EOS_FAMILIES: &[&str] = &[
     "pcsaft",
     "pcsaft-assoc",
     "pcsaft-crossassoc",
+    "pcsaft-solvating",
     "pcsaft-polar",
     "epcsaft",
     "epcsaft-noions",
